@@ -147,13 +147,6 @@ def setup_run_once(sx, st, params):
     REG.globals["DENIED_PUBKEYS"](sx, st)
 
 
-def _ghost_havoc(sx, body, st):
-    for g in list(st.ghost):
-        if g.startswith("yielded_") or g in ("called", "called_args_ok"):
-            st.ghost[g] = sx.fresh(st.ghost[g].ty, "g_" + g, st)
-
-
-REG.ghost_loop_havoc = _ghost_havoc
 
 run_once_contract = Contract(
     "ListBuilder.run_once", {"self": V.ObjT("ListBuilder"), "x0": V.Bytes},
@@ -180,6 +173,7 @@ run_once = REG.unit(Unit(
     canaries=[("deny-list-always-empty", "not (x0 in DENIED_PUBKEYS)")],
 ))
 run_once.local_types = {"local_set": BSET}
+run_once.ghost_const = ("clock",)
 run_once.stmt_hints = [
     # what a validator thread can observe right after each mutation of a global list:
     # a list that is enforced before and after the refresh must never be observed empty in between
@@ -187,7 +181,7 @@ run_once.stmt_hints = [
      [("enforced-list-never-observed-empty",
        "implies(list_kind == 'allow' and bool(_old_allowed) and bool(local_set), bool(ALLOWED_PUBKEYS))")]),
     # the refresh installs exactly the collected set
-    ("global_set.update(local_set)", {}, [],
+    ("global_set.intersection_update(local_set)", {}, [],
      [("installs-exactly-the-collected-set", "(x0 in global_set) == (x0 in local_set)")]),
     # the static whitelist is added (only) to a non-empty allow list
     ("ALLOWED_PUBKEYS.update(", {"_pre": "ALLOWED_PUBKEYS"}, [],
